@@ -1,4 +1,5 @@
 """C20 - saved pairings and the accessory cache survive restart and interrupted saves (DESIGN 4/C20, engine E-crash)."""
+import asyncio
 import builtins
 import glob
 import io
@@ -399,6 +400,89 @@ def run_cache(case, R):
         shutil.rmtree(d, ignore_errors=True)
 
 
+def run_ble_state(case, R):
+    """The state number a BLE pairing learns from advertisements is what a restarted process restores (file cache), whatever the sequence
+    of numbers - including the 16-bit roll-over and an accessory that restarted its counter."""
+    import struct
+
+    from bleak.backends.device import BLEDevice
+    from bleak.backends.scanner import AdvertisementData
+
+    from aiohomekit.controller.ble.controller import BleController
+    seq = case["gsns"]
+    R.nt(any(b < a for a, b in zip(seq, seq[1:])))
+    R.cls("ble-state", "goes-down" if any(b < a for a, b in zip(seq, seq[1:])) else "monotonic")
+    d = workdir()
+    try:
+        loc = pathlib.Path(d) / "cache.json"
+        pd = dict(PD, Connection="BLE", AccessoryAddress="00:11:22:33:44:55")
+        pd.pop("AccessoryIP")
+        pd.pop("AccessoryPort")
+        db = [{"aid": 1, "services": [{"iid": 1, "type": "3E", "characteristics": [{"iid": 2, "type": "23", "perms": ["pr"], "format": "string", "value": "Sim"}]}]}]
+
+        def adv(gsn, cn):
+            mfr = bytes([0x06, 0x31, 0x00]) + bytes.fromhex("aabbccddeeff") + struct.pack("<HHBB", 5, gsn & 0xFFFF, cn, 2) + b"\x01\x02\x03\x04"
+            return AdvertisementData(local_name="Sim", manufacturer_data={76: mfr}, service_data={}, service_uuids=[], tx_power=None, rssi=-60, platform_data=())
+
+        async def go():
+            cache = CharacteristicCacheFile(loc)
+            cache.async_create_or_update_map(pd["AccessoryPairingID"], case.get("cn", 1), db, None, case["g0"])
+            ctl = BleController(char_cache=cache)
+            ctl.load_pairing("alias", dict(pd))
+            dev = BLEDevice("00:11:22:33:44:55", "Sim", None)
+            for i, g in enumerate(seq):
+                ctl._device_detected(dev, adv(g, case.get("cn", 1)))
+                await asyncio.sleep(0)
+                if i in case.get("restart_after", [len(seq) - 1]):
+                    ctl2 = BleController(char_cache=CharacteristicCacheFile(loc))
+                    p2 = ctl2.load_pairing("alias", dict(pd))
+                    got = (p2.state_num, p2.description.state_num if p2.description else None)
+                    if got != (g, g):
+                        return i, g, got
+            return None
+        import aiohomekit.controller.ble.pairing as ble_pairing_mod
+        from aiohomekit.exceptions import AccessoryDisconnectedError
+
+        async def no_link(*a, **kw):       # a changed state number makes the pairing poll the accessory: there is no radio here
+            raise AccessoryDisconnectedError("simulated: accessory not in range")
+        orig_est, ble_pairing_mod.establish_connection = ble_pairing_mod.establish_connection, no_link
+        try:
+            bad = vtime.run_shared(go())
+        except Exception as e:  # noqa: BLE001
+            R.fail("C20.cache-roundtrip-raises", f"BLE state numbers {seq}: {type(e).__name__}: {e}", exc=type(e).__name__)
+            return
+        finally:
+            ble_pairing_mod.establish_connection = orig_est
+        if bad:
+            i, g, got = bad
+            R.fail("C20.cache-roundtrip", f"BLE pairing saw state numbers {[case['g0']] + seq[:i + 1]}; a process restarted then restores (state_num, description.state_num) = {got}, "
+                                          f"not {g}", field="state_num")
+    finally:
+        shutil.rmtree(d, ignore_errors=True)
+
+
+@st.composite
+def ble_state_cases(draw):
+    g0 = draw(st.sampled_from([1, 2, 900, 65534, 65535]))
+    n = draw(st.integers(1, 6))
+    seq = []
+    cur = g0
+    for _ in range(n):
+        step = draw(st.sampled_from(["+1", "+1", "+k", "same", "wrap", "restart"]))
+        cur = {"+1": cur + 1, "+k": cur + draw(st.integers(2, 50)), "same": cur, "wrap": 1, "restart": draw(st.integers(1, 5))}[step]
+        if cur > 65535:
+            cur = 1 + (cur - 65536)
+        seq.append(cur)
+    return {"g0": g0, "gsns": seq, "cn": draw(st.sampled_from([1, 3])), "restart_after": sorted(set(draw(st.lists(st.integers(0, n - 1), min_size=1, max_size=3))))}
+
+
+def enum_ble_state(tier):
+    yield {"g0": 65534, "gsns": [65535, 1, 2], "restart_after": [0, 1, 2]}
+    yield {"g0": 65535, "gsns": [1], "restart_after": [0]}
+    yield {"g0": 900, "gsns": [901, 3, 3, 4], "restart_after": [1, 2, 3]}
+    yield {"g0": 5, "gsns": [5, 6, 6, 7], "restart_after": [0, 1, 2, 3]}
+
+
 def run_corrupt_cache(case, R):
     emap = case["map"]
     d = workdir()
@@ -571,6 +655,8 @@ SPEC = Property(
               n={"quick": 600, "thorough": 12000}, min_nontrivial=100),
         Layer("cache-fixtures", run_cache, enumerate=enum_fixtures, exhaustive=True, space="every tests/fixtures/*.json entity map"),
         Layer("cache-roundtrip", run_cache, strategy=cache_cases, n={"quick": 800, "thorough": 20000}, min_nontrivial=50),
+        Layer("ble-state-number-fixed", run_ble_state, enumerate=enum_ble_state, exhaustive=True, space="4 state-number sequences incl. the 65535 -> 1 roll-over, restart after every advertisement"),
+        Layer("ble-state-number", run_ble_state, strategy=ble_state_cases, n={"quick": 200, "thorough": 4000}, min_nontrivial=20),
         Layer("cache-corrupt", run_corrupt_cache, strategy=corrupt_cases, n={"quick": 48, "thorough": 800}, min_nontrivial=10),
     ],
     assumptions=["process crash with a surviving OS; written bytes sit in the file object's buffer until flush/close and any prefix of them may have reached the OS at the crash; rename is atomic; no reordering after power loss",
